@@ -38,7 +38,9 @@ func (c *BasicAuth) Apply(_ context.Context, req *http.Request) error {
 func (c *BasicAuth) Hash() []byte {
 	hash := sha256.New()
 
+	// the separator ensures that different settings cannot result in the same sequence of bytes
 	hash.Write(stringx.ToBytes(c.User))
+	hash.Write([]byte{0})
 	hash.Write(stringx.ToBytes(c.Password))
 
 	return hash.Sum(nil)
